@@ -22,13 +22,15 @@ VARIABLES
   l,                  \* next record
   tp, cf, ifc, gv,    \* per notified object: [{"mon","mgr"} -> ...]  (see ChainView)
   phase,              \* "dead" | "idle" | "moving"
-  kind, histId, failTrig, baseConf, inputs,
+  kind, histId, failTrig, baseConf, inputs, minDepth,
+  readyAt,            \* blocks in which the funding had >= minDepth confirmations at a sync point
+  commitSeen,         \* a commitment transaction was on the best chain at a sync point
   reloaded,           \* a restart happened in this run
   ever,               \* <<role, block>> that have been buried >= ARD at a sync point of this run
   over,               \* a role that was final has been reorganised away (beyond the property)
   v                   \* verdict of the last sync record
 
-tvars == <<hvars, target, l, tp, cf, ifc, gv, phase, kind, histId, failTrig, baseConf, inputs, reloaded,
+tvars == <<hvars, target, l, tp, cf, ifc, gv, phase, kind, histId, failTrig, baseConf, inputs, minDepth, readyAt, commitSeen, reloaded,
            ever, over, v>>
 
 Rec == ndJsonDeserialize(IOEnv.TRACE)
@@ -47,7 +49,7 @@ NoConf == [r \in Roles |-> None]
 \* the canonical one may then lack claims that the canonical delivery still has
 WaiveLostClaims == "C11_WAIVE" \in DOMAIN IOEnv /\ IOEnv.C11_WAIVE = "1"
 
-AllGood == [hist |-> TRUE, best |-> TRUE, funding |-> TRUE, closed |-> TRUE, relevant |-> TRUE,
+AllGood == [hist |-> TRUE, best |-> TRUE, funding |-> TRUE, listed |-> TRUE, closed |-> TRUE, relevant |-> TRUE,
             remembers |-> TRUE, irrev |-> TRUE, aBal |-> TRUE, aRel |-> TRUE, aClaims |-> TRUE,
             aChans |-> TRUE, aEvents |-> TRUE, aMsgs |-> TRUE, retract |-> TRUE]
 
@@ -58,6 +60,7 @@ TraceInit ==
   /\ tp = [o \in Objs |-> 0] /\ cf = [o \in Objs |-> NoConf]
   /\ ifc = [o \in Objs |-> "none"] /\ gv = [o \in Objs |-> FALSE]
   /\ phase = "dead" /\ kind = "" /\ histId = 0 /\ failTrig = <<>> /\ baseConf = 0 /\ inputs = <<>>
+  /\ minDepth = 0 /\ readyAt = {} /\ commitSeen = FALSE
   /\ reloaded = FALSE /\ ever = {} /\ over = FALSE
   /\ v = AllGood
 
@@ -75,14 +78,15 @@ TReset ==
      /\ minh' = [q \in Roles |-> r.minh[q]]
      /\ fundingRole' = r.funding_role
      /\ kind' = r.kind /\ histId' = r.hist
-     /\ failTrig' = r.failtrig /\ baseConf' = r.base_conf /\ inputs' = r.inputs
+     /\ failTrig' = r.failtrig /\ baseConf' = r.base_conf /\ inputs' = r.inputs /\ minDepth' = r.min_depth
      /\ v' = AllGood
   /\ target' = 0
   /\ tp' = [o \in Objs |-> 0] /\ cf' = [o \in Objs |-> NoConf]
   /\ ifc' = [o \in Objs |-> "none"] /\ gv' = [o \in Objs |-> FALSE]
   /\ phase' = "idle" /\ reloaded' = FALSE /\ ever' = {} /\ over' = FALSE
+  /\ readyAt' = {} /\ commitSeen' = FALSE
 
-Same == UNCHANGED <<hvars, kind, histId, failTrig, baseConf, inputs, ever, over>>
+Same == UNCHANGED <<hvars, kind, histId, failTrig, baseConf, inputs, minDepth, readyAt, commitSeen, ever, over>>
 
 TReload ==
   /\ IsEvent("reload") /\ phase = "idle"
@@ -168,10 +172,17 @@ TSync ==
      IN
      /\ over' = ov
      /\ ever' = ever \cup NowBuried
+     /\ readyAt' = readyAt \cup (IF fundingRole /\ Depth(1, target) >= minDepth THEN {Place(1, target)} ELSE {})
+     /\ commitSeen' = (commitSeen \/ \E q \in SpendRoles : Place(q, target) # None)
      /\ (cmp /\ WaiveLostClaims /\ ~strictClaims /\ waivedClaims) => PrintT(<<"WAIVED", r.run, i>>)
      /\ v' = [hist |-> (kind = "sched" => hasCanon),
               best |-> (BestBlockIs(f.mbest) /\ BestBlockIs(f.gbest)),
               funding |-> (ov \/ f.conf < 0 \/ FundingDepthIs(f.conf, baseConf)),
+              \* the manager gives a channel up exactly when a commitment transaction confirmed, or its
+              \* funding left the block in which it had reached the depth the channel was used at
+              listed |-> (ov \/ ~fundingRole \/
+                           ((f.conf >= 0) <=> ~(commitSeen \/ (\E q \in SpendRoles : Place(q, target) # None)
+                                                \/ \E b \in readyAt : Place(1, target) # b))),
               closed |-> (ov \/ ClosedViewOK(f.open_bal, ever)),
               relevant |-> (ov \/ (RelevantOK(f.mrel) /\ RelevantOK(f.grel))),
               remembers |-> (ov \/ RemembersOK(f.mrel, ever)),
@@ -190,7 +201,7 @@ TSync ==
                              /\ ((WaiveLostClaims /\ kind = "sched") \/ dClaims \subseteq ToSet(r.R.claims))
                              /\ (r.R.chans # <<>> => (r.R.chans = d.R.chans /\ Pairs(f.grel) = Pairs(d.f.grel))))]
   /\ phase' = "idle"
-  /\ UNCHANGED <<hvars, target, tp, cf, ifc, gv, kind, histId, failTrig, baseConf, inputs, reloaded>>
+  /\ UNCHANGED <<hvars, target, tp, cf, ifc, gv, kind, histId, failTrig, baseConf, inputs, minDepth, reloaded>>
 
 TraceNext == TReset \/ TReload \/ TBegin \/ TConn \/ TDisc \/ TTxs \/ TBest \/ TUnconf \/ TNote \/ TSync
 
@@ -206,6 +217,7 @@ TraceAccepted ==
 HistoryWellFormed == v.hist /\ (phase = "dead" \/ TreeOK)
 BestBlockIsChainTip == v.best
 FundingDepthIsChainFunction == v.funding
+ChannelGivenUpIffChainSaysSo == v.listed
 ClosedIffSpendOnChain == v.closed
 RelevantTxidsOnBestChain == v.relevant
 UnburiedStillWatched == v.remembers
